@@ -1,7 +1,7 @@
 (* C09 -- The generated C++ (boost::sml) encodes exactly the table and is self-consistent. *)
 From Coq Require Import String List Bool Arith.
 From KV Require Import Lib.TableDef Model.TTable Gen.SmlTmpl Model.SmlTT Model.DeclShape Gen.DeclTmpl Model.Decls
-                       Proofs.TTableProofs Proofs.SmlProofs Proofs.DeclProofs.
+                       Proofs.TTableProofs Proofs.SmlProofs Proofs.DeclProofs Spec.TableInterp Proofs.SmlSemProofs.
 Import ListNotations.
 Open Scope string_scope.
 
@@ -26,6 +26,20 @@ Theorem C09_hooks_only_states : forall t, forallb row_ok t = true -> forall i s,
   In i (gen_sml true t) -> hook_state i = Some s -> In s (states t).
 Proof. exact sml_hooks_only_states. Qed.
 Print Assumptions C09_hooks_only_states.
+
+(* What the emitted table DOES, under the semantics of boost::sml stated in Model/SmlTT.v (initial state marked `*` and its
+   entry hooks at construction; rows tried in table order, first row of the current state for the event whose guard holds
+   fires; `= state<T>` external -- exit hooks, action, entry hooks, also for T = source -- otherwise internal; nothing
+   happens when no row fires): for every non-empty table of well-formed rows in which no guard takes the instance name of
+   the always-true guard, every event sequence and every guard oracle (on the instance names the text carries), reading
+   the generated table makes exactly the callbacks of the table interpreter (in those names) and passes through exactly
+   its states.  The sml semantics is the ASSUMPTION (the sml submodule is empty here); the check runs the same reading in
+   Python over the rows parsed back from the real text, and the generated unit compiled against a functional mini-sml
+   header (harness/stubs/boost/sml.hpp) that implements the same stated semantics. *)
+Theorem C09_sem : forall t, t <> [] -> forallb row_ok t = true -> sml_names_ok t = true -> forall evs gv,
+  sml_run (gen_sml true t) evs gv = camel_steps (table_interp_quiet t evs (fun n g => gv n (camel_small g))).
+Proof. exact sml_sem. Qed.
+Print Assumptions C09_sem.
 
 (* Self-consistency, at the level of (declaration kind, name, parameter list) triples.  [decls_file f t i] is what file f
    declares: for every declaration line that translator/decltmpl.py finds inside a per-element block of f's template
@@ -88,6 +102,26 @@ Example C09_self_consistent_nonvacuous :
   dcount (decls_file FIfc ex_table ex_iface) (KIfcTrigger, "Extra0", ["bool p0"]) = 1.
 Proof. vm_compute. repeat split; try reflexivity; repeat (first [left; reflexivity | right]). Qed.
 Print Assumptions C09_self_consistent_nonvacuous.
+
+Example C09_sem_nonvacuous :
+  sml_names_ok ex_table = true /\
+  sml_run (gen_sml true ex_table) ["BEv"; "Ev"; "EvZ"; "Ev"] (fun n _ => Nat.even n) =
+    [([CEntry "SA" "EventStartup"], "SA");
+     ([CGuard "guardG" "BEv"; CExit "SA" "BEv"; CAction "onA" "BEv"; CEntry "SA" "BEv"], "SA");
+     ([CAction "onAB" "Ev"], "SA");
+     ([CExit "SA" "EvZ"; CEntry "SC" "EvZ"], "SC");
+     ([], "SC")].
+Proof. vm_compute. split; reflexivity. Qed.
+Print Assumptions C09_sem_nonvacuous.
+
+(* Known finding K-C09-4 in the reading: a guard named Gnone has the instance name of the always-true guard, so its row
+   fires without the guard being asked -- outside sml_names_ok. *)
+Example C09_sem_guard_named_Gnone_refuted :
+  let t := [mkRow "S" "E" "T" "OnA" "Gnone"] in
+  sml_names_ok t = false /\
+  sml_run (gen_sml true t) ["E"] (fun _ _ => false) <> camel_steps (table_interp_quiet t ["E"] (fun _ _ => false)).
+Proof. split; [reflexivity|]. vm_compute. discriminate. Qed.
+Print Assumptions C09_sem_guard_named_Gnone_refuted.
 
 (* The key that was used before the fix: commit (string concatenation action+event): (OnA,BEv) and (OnAB,Ev) collide and
    the signature OnAB(Ev) is never declared. *)
